@@ -251,8 +251,8 @@ def addExpr (G : GLang) (c : GCfg) (root : Node) (origin : Option Node) :
         | some k => (g, k)
         | none => g.fresh
       let g := { g with srcNodes := g.srcNodes ++ [(id, cur)] }
-      -- `expr.type in canon` hashes the stored type object: a variable in it, even one bound since, makes it a non-member
-      let canonical := inCanon G ty
+      -- `expr.type.normalize() in canon`: the stored type object is followed first (a variable bound after the source was fixed)
+      let canonical := inCanon G (normT G.store ty)
       let r : Except GErr GState :=
         if c.withTypes && (canonical || c.withNoncanonicalTypes) then
           annotateType G c g root cur (normT G.store ty) false (some canonical) else .ok g
